@@ -157,6 +157,8 @@ def alias_of(M: Model, e: ast.expr) -> ast.expr | None:
     """resolved `e` = the alias given for module <m>  ->  <m> (an expression)"""
     if isinstance(e, ast.Subscript) and not isinstance(e.slice, ast.Slice) and M.is_A(e.value):
         return e.slice
+    if isinstance(e, ast.Call) and isinstance(e.func, ast.Attribute) and e.func.attr == "get" and len(e.args) == 1 and not e.keywords and M.is_A(e.func.value):
+        return e.args[0]
     if isinstance(e, ast.Name):
         b = M.loop_binding(e.id)
         if b is not None and M.keys_of_A(M.resolve(b.value)) == "items":
@@ -517,11 +519,12 @@ def find_selection(M: Model, m_expr: ast.expr, ev: Event) -> Selection | str:
                 continue
             hits = []
             break
-        if len(hits) == 1:
-            b, cand, L = hits[0]
-            P = M.guard(b.stmt, relative_to=L)
-            disc = "first" if _followed_by_break(M, b.stmt, L) else "last"
-            srcs = [c[0] for c in M.cond_list(b.stmt)]
+        if hits and len({(cand, id(L)) for _b, cand, L in hits}) == 1:
+            # one or several hit sites in the same search loop (`if n == c: m = c; break` / `if n.startswith(c + "."): m = c; break`)
+            _b0, cand, L = hits[0]
+            P = f_or([M.guard(b.stmt, relative_to=L) for b, _c, _l in hits])
+            disc = "first" if all(_followed_by_break(M, b.stmt, L) for b, _c, _l in hits) else "last"
+            srcs = [c[0] for b, _c, _l in hits for c in M.cond_list(b.stmt)]
             return Selection(cand, M.resolve(L.iter), P, disc, L, L, srcs)
     # (d) candidate computed from the variable of an enclosing loop:  for i in R: m = f(i); ...
     if len(bs) == 1 and bs[0].kind == "assign":
@@ -767,19 +770,21 @@ def domain_order(M: Model, e: ast.expr, n: str, depth: int = 0) -> tuple[str | N
     if head is not None and _is_name(head, n):
         d, o = domain_order(M, tail, n, depth + 1)
         if d == "parents":
-            return "lineage", o
+            # n, parent ... root = nearest first;  n, root ... parent: the module itself, then its ancestors root first
+            return "lineage", {"near": "near", "far": "self-then-far"}.get(o or "")
         return None, None
     if isinstance(e, ast.BinOp) and isinstance(e.op, ast.Add) and isinstance(e.right, (ast.List, ast.Tuple)) and len(e.right.elts) == 1 and _is_name(e.right.elts[0], n):
         d, o = domain_order(M, e.left, n, depth + 1)
         if d == "parents":
-            return "lineage", {"far": "far-self-last", "near": None}.get(o or "")
+            # root ... parent, n  is the exact reverse of  n, parent ... root
+            return "lineage", {"far": "far", "near": "mixed"}.get(o or "")
     # itertools.chain([n], <parents>)
     if isinstance(e, ast.Call) and ((isinstance(e.func, ast.Name) and e.func.id == "chain") or (isinstance(e.func, ast.Attribute) and e.func.attr == "chain")) and len(e.args) == 2 and not e.keywords:
         h = e.args[0]
         if isinstance(h, (ast.List, ast.Tuple)) and len(h.elts) == 1 and _is_name(h.elts[0], n):
             d, o = domain_order(M, e.args[1], n, depth + 1)
             if d == "parents":
-                return "lineage", o
+                return "lineage", {"near": "near", "far": "self-then-far"}.get(o or "")
         return None, None
     # dotted prefixes by component count:  ".".join(parts[:i]) for i in range(len(parts), 0, -1)   (parts = n.split("."))
     if isinstance(e, (ast.ListComp, ast.GeneratorExp)) and len(e.generators) == 1 and not e.generators[0].ifs and isinstance(e.generators[0].target, ast.Name):
@@ -909,6 +914,14 @@ def classify_atom(M: Model, text: str, n: str, c: str, label_names: set[str]) ->
         return "other"
     if isinstance(e, ast.Call) and isinstance(e.func, ast.Name) and e.func.id == "bool" and len(e.args) == 1:
         e = e.args[0]
+    # truthiness of the alias text / `aliases.get(c) is None`
+    am = alias_of(M, e) if isinstance(e, ast.expr) else None
+    if am is not None and _is_name(am, c):
+        return "alias-truthy"
+    if isinstance(e, ast.Compare) and len(e.ops) == 1 and isinstance(e.ops[0], ast.Is) and isinstance(e.comparators[0], ast.Constant) and e.comparators[0].value is None:
+        am = alias_of(M, e.left)
+        if am is not None and _is_name(am, c) and isinstance(e.left, ast.Call):
+            return "neg:in-keys"
     if isinstance(e, ast.Compare) and len(e.ops) == 1:
         l, op, r = e.left, e.ops[0], e.comparators[0]
         if isinstance(op, ast.Eq):
@@ -1352,6 +1365,9 @@ def _judge_selection(C, ev: Event, sel: Selection, label_names: set[str], has_se
         env_fix = chosen or {}
     selfs, propers, both, raws, inkeys, others = by("self"), by("proper"), by("self+proper"), by("raw"), by("in-keys"), by("other")
     what_t = "ancestor test"
+    truthy = by("alias-truthy")
+    if truthy:
+        return [("bad", r1, what_t, f"whether an alias applies depends on the alias text being non-empty (`{truthy[0][1]}`): an empty alias is ignored, the module keeps its name or takes a parent's alias", sel.where)]
     if domain in ("lineage", "parents"):
         # candidates are ancestors of the node by construction: the test is membership in the aliases
         target = f_or(inkeys)
@@ -1432,7 +1448,7 @@ def _judge_selection(C, ev: Event, sel: Selection, label_names: set[str], has_se
             out.append(("unsure", r2, what_o, f"order of the candidates `{norm(sel.D, 80)}` not recognised", sel.where))
     else:
         good = (disc == "first" and order == "near") or (disc == "last" and order == "far") or disc == "longest"
-        wrong = (disc == "first" and order in ("far", "far-self-last")) or (disc == "last" and order == "near") or disc == "shortest"
+        wrong = (disc == "first" and order in ("far", "self-then-far")) or (disc == "last" and order == "near") or disc == "shortest"
         if good:
             out.append(("ok", r2, what_o, "the module's ancestors are walked from the module itself upwards" if disc == "first" else "the nearest aliased ancestor is selected", sel.where))
             out.append(("ok", r2, what_f, "the nearest ancestor that has an alias is used", ev.node))
